@@ -59,6 +59,39 @@ CLAIMS = {
         "struct decoding, VecDeque/BTreeMap walks, enum discriminants, type-graph construction, DWARF location evaluation, rendering; "
         "bucket counts and entry sizes other than the instances run.",
         "DESIGN.md section 6, C06"),
+    "C07": (
+        "Bounded model checking of literal matching, the part of the data-query operators the solver can reach: "
+        "SupportedScalar::equal_with_literal decided for every integer kind (i8..i128, u8..u128, isize, usize) and value against "
+        "every Int / Bool / Address literal - a key matches exactly the one literal that denotes it, so `a[i]` can only return the "
+        "value stored under key i - and for float keys against float literals (equal keys match, zero included; keys further than "
+        "1e-6 apart do not). Found the 128-bit truncation defect repaired by fix: 39dff2a (replayed natively).",
+        "Trusted: Kani/CBMC (bit-precise floats). Outside the claim (most of the statement): the chumsky grammar and 'canonical text "
+        "parses back'; field / deref / address / canonic; array index and slice (every path drops Values through a pointer, which CBMC "
+        "cannot handle here - DESIGN 11.2); string, char and composite literals.",
+        "DESIGN.md sections 6 (C07) and 11"),
+    "C08": (
+        "Bounded model checking of crash- and out-of-bounds-freedom at the listed sites, for all values of the hostile input: "
+        "length / capacity guards composed with read_memory_by_pid for every 64-bit length field; StructureMember::value for every "
+        "member offset and size against 8 fetched bytes; scalar decoding with fewer bytes than the type needs; PointerValue::slice "
+        "arithmetic for every pointer, element size and user-typed bounds; the DAP completions text/column arithmetic for every "
+        "i64 column. Every panic, overflow and pointer check CBMC generates in the reachable repository code is an obligation. "
+        "Four defects found this way were repaired (fix: 2579f05, 8cef99b, f29c815, b0ea585).",
+        "Trusted: Kani/CBMC; stubs of ptrace::read, read_memory_by_pid, ComplexType::type_size_in_bytes; the DWARF expression "
+        "evaluator is cut (it trips an internal error of the Kani compiler when reachable). Outside the claim: command-line and DQE "
+        "parsers (chumsky), serde_json envelope decoding, ArrayValue::slice (drops Values, DESIGN 11.2; its out-of-range panic is a "
+        "reading-only item), VecDeque / B-tree walks on garbage, allocation failure for huge DAP readMemory counts, wall-clock "
+        "bounds, 'the session remains usable afterwards'.",
+        "DESIGN.md sections 6 (C08) and 11"),
+    "C16": (
+        "Bounded model checking of argument marshalling for `call`: CallArgs::prepare_registers puts argument k into the k-th System V "
+        "integer argument register (rdi, rsi, rdx, rcx, r8, r9) and leaves every other of the 27 registers unchanged, for all register "
+        "contents and argument values; CallArgs::new refuses count mismatches and more than six arguments and never reaches the "
+        "register mapping's unreachable!(); liter_to_arg_bin_repr puts the literal, truncated to the parameter's width, into the low "
+        "bytes of the register for every i64 / bool / address literal and each supported DWARF base type, and refuses mismatching kinds.",
+        "Trusted: Kani/CBMC; HashMap -> association list in type.rs for the one-type ComplexType. Outside the claim (most of the "
+        "statement): that f runs once and every register and text byte is restored (CallContext / call_fn_raw need a live process), "
+        "vard/argd formatter injection, with_disabled_brkpts, the call cache.",
+        "DESIGN.md sections 6 (C16) and 11"),
     "C10": (
         "Bounded model checking of the signal injection queue of Tracer::resume and the signal classification of apply_new_status, "
         "for every signal 1..31: conservation (a queued signal is passed to exactly one PTRACE_CONT of exactly its thread; threads "
